@@ -1,17 +1,1026 @@
-//! C13 — correspondence driver (stub: not built yet).
+//! C13 — tensor transformations equal their lazy views; equality and similarity.
+//! See lean/Driver/C13.lean for the protocol.
 
 use crate::util::*;
+use crate::with_d;
+use easy_ml::matrices::Matrix;
+use easy_ml::tensors::indexing::{TensorAccess, TensorTranspose};
+use easy_ml::tensors::operations::Similar;
+use easy_ml::tensors::views::{TensorMut, TensorRef, TensorRename, TensorView};
+use easy_ml::tensors::Tensor;
 
-pub fn gen(_g: &mut Gen) {}
+// ---------------------------------------------------------------------------------------------
+// element functions (the Lean driver uses the same)
+// ---------------------------------------------------------------------------------------------
 
-pub struct Runner;
+fn map_f(x: u64) -> u64 {
+    3 * x + 1
+}
+fn code(idx: &[usize]) -> u64 {
+    idx.iter().fold(0u64, |acc, &i| acc * 7 + i as u64 + 1)
+}
+fn mapi_f(idx: &[usize], x: u64) -> u64 {
+    1000 * x + code(idx)
+}
+fn zip_f(x: u64, y: u64) -> u64 {
+    1000 * x + y
+}
+fn zipi_f(idx: &[usize], x: u64, y: u64) -> u64 {
+    (1000 * x + y) * 10_000_000 + code(idx)
+}
+
+// ---------------------------------------------------------------------------------------------
+// generation
+// ---------------------------------------------------------------------------------------------
+
+fn shapes_up_to(max_d: usize, max_product: usize) -> Vec<Vec<usize>> {
+    fn go(cur: &mut Vec<usize>, prod: usize, max_d: usize, max_product: usize, out: &mut Vec<Vec<usize>>) {
+        out.push(cur.clone());
+        if cur.len() == max_d {
+            return;
+        }
+        let mut l = 1;
+        while prod * l <= max_product {
+            cur.push(l);
+            go(cur, prod * l, max_d, max_product, out);
+            cur.pop();
+            l += 1;
+        }
+    }
+    let mut out = vec![];
+    go(&mut vec![], 1, max_d, max_product, &mut out);
+    out
+}
+
+const NAME_POOL: [&str; 8] = ["a", "b", "c", "d", "e", "f", "row", "column"];
+const FRESH_POOL: [&str; 6] = ["p", "q", "r", "s", "u", "w"];
+
+fn named(g: &mut Gen, lens: &[usize]) -> Vec<(&'static str, usize)> {
+    let mut pool: Vec<&str> = NAME_POOL.to_vec();
+    g.rng.shuffle(&mut pool);
+    lens.iter().enumerate().map(|(i, l)| (intern(pool[i]), *l)).collect()
+}
+
+/// every index tuple of a grid, row-major (the harness's own odometer, independent of the library)
+fn all_indexes(lens: &[usize]) -> Vec<Vec<usize>> {
+    let mut out: Vec<Vec<usize>> = vec![vec![]];
+    for &l in lens {
+        let mut next = Vec::with_capacity(out.len() * l);
+        for prefix in &out {
+            for c in 0..l {
+                let mut p = prefix.clone();
+                p.push(c);
+                next.push(p);
+            }
+        }
+        out = next;
+    }
+    out
+}
+
+fn ravel(lens: &[usize], idx: &[usize]) -> usize {
+    let mut o = 0;
+    for d in 0..lens.len() {
+        o = o * lens[d] + idx[d];
+    }
+    o
+}
+
+/// data of the tensor with dimensions reordered to `perm` (new dimension k = old dimension perm[k])
+fn reordered_data(lens: &[usize], data: &[u64], perm: &[usize]) -> (Vec<usize>, Vec<u64>) {
+    let new_lens: Vec<usize> = perm.iter().map(|&p| lens[p]).collect();
+    let mut out = vec![];
+    for idx in all_indexes(&new_lens) {
+        let mut old = vec![0; lens.len()];
+        for (k, &p) in perm.iter().enumerate() {
+            old[p] = idx[k];
+        }
+        out.push(data[ravel(lens, &old)]);
+    }
+    (new_lens, out)
+}
+
+fn show_data(v: &[u64]) -> String {
+    if v.is_empty() {
+        "-".to_string()
+    } else {
+        v.iter().map(|x| x.to_string()).collect::<Vec<_>>().join(",")
+    }
+}
+
+fn src_spec(g: &mut Gen, names: &[&'static str], allow_tensor: bool) -> String {
+    let d = names.len();
+    let mut order: Vec<&str> = names.to_vec();
+    g.rng.shuffle(&mut order);
+    let lo = if allow_tensor { 0 } else { 1 };
+    match g.rng.range(lo, 4) {
+        0 => "t".to_string(),
+        1 => "v".to_string(),
+        2 => format!("a:{}", show_names(&order)),
+        3 => format!("x:{}", show_names(&order)),
+        _ => {
+            let mut fresh: Vec<&str> = FRESH_POOL.to_vec();
+            g.rng.shuffle(&mut fresh);
+            format!("r:{}", show_names(&fresh[..d]))
+        }
+    }
+}
+
+/// names of the view `spec` of a tensor with names `names` (for choosing valid orderings of it)
+fn view_names(names: &[&'static str], spec: &str) -> Vec<&'static str> {
+    if let Some(rest) = spec.strip_prefix("a:") {
+        parse_names(rest)
+    } else if let Some(rest) = spec.strip_prefix("r:") {
+        parse_names(rest)
+    } else {
+        names.to_vec()
+    }
+}
+
+fn factorizations(n: usize, max_d: usize) -> Vec<Vec<usize>> {
+    fn go(n: usize, max_d: usize, cur: &mut Vec<usize>, out: &mut Vec<Vec<usize>>) {
+        if n == 1 {
+            out.push(cur.clone());
+        }
+        if cur.len() == max_d {
+            return;
+        }
+        for l in 1..=n {
+            if n % l == 0 {
+                if l == 1 && cur.contains(&1) {
+                    continue; // at most one length-1 dimension, keeps the list short
+                }
+                cur.push(l);
+                go(n / l, max_d, cur, out);
+                cur.pop();
+            }
+        }
+    }
+    let mut out = vec![];
+    go(n, max_d, &mut vec![], &mut out);
+    out.sort();
+    out.dedup();
+    out
+}
+
+fn gen_case(g: &mut Gen, shape: &[(&'static str, usize)], exhaustive: bool) {
+    let d = shape.len();
+    let names: Vec<&'static str> = shape.iter().map(|s| s.0).collect();
+    let lens: Vec<usize> = shape.iter().map(|s| s.1).collect();
+    let n: usize = lens.iter().product();
+    let start = g.rng.below(40) as u64;
+    let data: Vec<u64> = (0..n as u64).map(|i| i + start).collect();
+    g.op(format!("@ t {} i{}x{}", show_shape(shape), start, n));
+    g.count(&format!("tensor.D={}", d));
+    let square2 = d == 2 && lens[0] == lens[1];
+    if square2 {
+        g.count(&format!("tensor.square2d.n={}", lens[0]));
+    }
+
+    // ---- reorder / transpose: every ordering (or a sample), every form
+    let mut perms = permutations(d);
+    if !exhaustive && perms.len() > 4 {
+        g.rng.shuffle(&mut perms);
+        perms.truncate(4);
+    }
+    for perm in &perms {
+        let order: Vec<&str> = perm.iter().map(|&p| names[p]).collect();
+        let identity = (0..d).all(|i| perm[i] == i);
+        for op in ["reorder", "transpose"] {
+            for form in ["alloc", "mut", "lazy"] {
+                let src = if form == "mut" { "t".to_string() } else if g.rng.chance(1, 2) { "t".into() } else { "v".into() };
+                g.op(format!("{} {} src={} form={}", op, show_names(&order), src, form));
+                g.count(&format!("{}.{}", op, form));
+                if form == "mut" {
+                    g.count(if square2 { "inplace.square_branch" } else { "inplace.fallback_branch" });
+                    if square2 && identity {
+                        g.count("inplace.square_branch.identity_order");
+                    }
+                }
+            }
+        }
+        // through a view that is itself reordered / transposed / renamed
+        let src = src_spec(g, &names, false);
+        let vnames = view_names(&names, &src);
+        let order2: Vec<&str> = perm.iter().map(|&p| vnames[p]).collect();
+        let op = *g.rng.pick(&["reorder", "transpose"]);
+        let form = *g.rng.pick(&["alloc", "lazy"]);
+        g.op(format!("{} {} src={} form={}", op, show_names(&order2), src, form));
+        g.count(&format!("{}.through_view.{}", op, &src[..1]));
+    }
+    // orderings that are not permutations
+    if d >= 1 {
+        let mut bad: Vec<Vec<&str>> = vec![];
+        let mut unk = names.clone();
+        unk[d - 1] = "zz";
+        bad.push(unk);
+        if d >= 2 {
+            let mut rep = names.clone();
+            rep[1] = rep[0];
+            bad.push(rep);
+        }
+        for b in bad {
+            for op in ["reorder", "transpose"] {
+                let form = *g.rng.pick(&["alloc", "mut", "lazy"]);
+                let src = if form == "mut" || g.rng.chance(1, 2) { "t" } else { "v" };
+                g.op(format!("{} {} src={} form={}", op, show_names(&b), src, form));
+                g.count(&format!("{}.non_permutation", op));
+            }
+        }
+    }
+
+    // ---- reshape: every factorisation of the element count (D2 <= 3), plus bad targets
+    let mut targets = factorizations(n, 3);
+    if !exhaustive && targets.len() > 5 {
+        g.rng.shuffle(&mut targets);
+        targets.truncate(5);
+    }
+    for tl in targets {
+        let tshape = named(g, &tl);
+        g.op(format!("reshape {} form=owned", show_shape(&tshape)));
+        g.count("reshape.owned");
+        if tl.len() == d {
+            g.op(format!("reshape {} form=mut", show_shape(&tshape)));
+            g.count("reshape.mut");
+        }
+    }
+    {
+        // wrong count, repeated name, zero length — same dimensionality so that both forms apply
+        let mut wrong = shape.to_vec();
+        if d >= 1 {
+            wrong[0].1 += 1;
+            for form in ["owned", "mut"] {
+                g.op(format!("reshape {} form={}", show_shape(&wrong), form));
+                g.count("reshape.bad.count");
+            }
+            let mut zero = shape.to_vec();
+            zero[0].1 = 0;
+            for form in ["owned", "mut"] {
+                g.op(format!("reshape {} form={}", show_shape(&zero), form));
+                g.count("reshape.bad.zero");
+            }
+        }
+        if d >= 2 {
+            let mut rep = shape.to_vec();
+            rep[1].0 = rep[0].0;
+            for form in ["owned", "mut"] {
+                g.op(format!("reshape {} form={}", show_shape(&rep), form));
+                g.count("reshape.bad.repeated_name");
+            }
+        }
+    }
+
+    // ---- rename
+    {
+        let mut fresh: Vec<&str> = FRESH_POOL.to_vec();
+        g.rng.shuffle(&mut fresh);
+        let good: Vec<&str> = fresh[..d].to_vec();
+        for form in ["mut", "owned", "view"] {
+            g.op(format!("rename {} src=t form={}", show_names(&good), form));
+            g.count(&format!("rename.{}", form));
+        }
+        // swap the names of the first two dimensions (legal, keeps the set of names)
+        if d >= 2 {
+            let mut sw = names.clone();
+            sw.swap(0, 1);
+            let form = *g.rng.pick(&["mut", "owned", "view"]);
+            g.op(format!("rename {} src=t form={}", show_names(&sw), form));
+            g.count("rename.swap_names");
+            let mut rep = good.clone();
+            rep[d - 1] = rep[0];
+            for form in ["mut", "owned", "view"] {
+                g.op(format!("rename {} src=t form={}", show_names(&rep), form));
+                g.count("rename.bad.repeated_name");
+            }
+        }
+        let src = src_spec(g, &names, false);
+        g.op(format!("rename {} src={} form=view", show_names(&good), src));
+        g.count("rename.through_view");
+    }
+
+    // ---- map / mapi
+    for op in ["map", "mapi"] {
+        for form in ["alloc", "mut"] {
+            g.op(format!("{} src=t form={}", op, form));
+            g.op(format!("{} src=v form={}", op, form));
+            let src = src_spec(g, &names, false);
+            let via = if src.starts_with("a:") && g.rng.chance(1, 2) { " via=access" } else { "" };
+            g.op(format!("{} src={} form={}{}", op, src, form, via));
+            g.count_n(&format!("{}.{}", op, form), 3);
+        }
+    }
+
+    // ---- elementwise
+    {
+        let start2 = 100 + g.rng.below(40) as u64;
+        let same = format!("{} i{}x{}", show_shape(shape), start2, n);
+        for idx in [0, 1] {
+            for (src, rsrc) in [("t", "t"), ("t", "v"), ("v", "t"), ("v", "v")] {
+                let via = *g.rng.pick(&["val", "ref"]);
+                g.op(format!("zip {} src={} rsrc={} idx={} via={}", same, src, rsrc, idx, via));
+                g.count("zip.same_shape");
+            }
+        }
+        // both operands seen through the same reordering (shapes agree again)
+        if d >= 2 {
+            let perm = g.rng.pick(&permutations(d)).clone();
+            let order: Vec<&str> = perm.iter().map(|&p| names[p]).collect();
+            let kind = *g.rng.pick(&["a", "x"]);
+            let spec = format!("{}:{}", kind, show_names(&order));
+            let idx = g.rng.below(2);
+            g.op(format!("zip {} src={} rsrc={} idx={} via=val", same, spec, spec, idx));
+            g.count("zip.both_through_view");
+            // left reordered, right not: shapes differ unless the ordering is the identity
+            g.op(format!("zip {} src={} rsrc=t idx={} via=val", same, spec, idx));
+            g.count("zip.shape_mismatch_or_identity");
+            // right operand stored in the other order, seen through the inverse ordering
+            let (nl, nd) = reordered_data(&lens, &(0..n as u64).map(|i| i + start2).collect::<Vec<_>>(), &perm);
+            let nshape: Vec<(&str, usize)> = perm.iter().zip(nl.iter()).map(|(&p, &l)| (names[p], l)).collect();
+            g.op(format!(
+                "zip {} {} src=t rsrc=a:{} idx={} via=ref",
+                show_shape(&nshape), show_data(&nd), show_names(&names), idx
+            ));
+            g.count("zip.right_reordered_back");
+        }
+        if d >= 1 {
+            let mut other = shape.to_vec();
+            other[0].0 = "zz";
+            g.op(format!("zip {} i0x{} src=t rsrc=t idx=0 via=val", show_shape(&other), n));
+            g.op(format!("zip {} i0x{} src=v rsrc=v idx=1 via=val", show_shape(&other), n));
+            g.count_n("zip.name_mismatch", 2);
+            let mut longer = shape.to_vec();
+            longer[0].1 += 1;
+            let n2: usize = longer.iter().map(|s| s.1).product();
+            g.op(format!("zip {} i0x{} src=t rsrc=t idx=0 via=ref", show_shape(&longer), n2));
+            g.count("zip.length_mismatch");
+        }
+    }
+
+    // ---- first / scalar
+    g.op("first src=t".to_string());
+    g.op("first src=v".to_string());
+    let src = src_spec(g, &names, false);
+    g.op(format!("first src={}", src));
+    g.count_n("first", 3);
+    if d == 0 {
+        g.op("scalar src=t".to_string());
+        g.op("scalar src=v".to_string());
+        g.op("scalar src=a:-".to_string());
+        g.op("scalar src=x:-".to_string());
+        g.op("scalar src=r:-".to_string());
+        g.count_n("scalar", 5);
+    }
+
+    // ---- matrices
+    if d == 2 {
+        g.op("into_matrix".to_string());
+        g.op("roundtrip".to_string());
+        g.op(format!("from_matrix {} {} i{}x{} {} {}", lens[0], lens[1], start, n, names[1], names[0]));
+        g.op(format!("from_matrix {} {} i{}x{} {} {}", lens[0], lens[1], start, n, names[0], names[0]));
+        g.count_n("matrix.conversions", 4);
+    }
+
+    // ---- equality / similarity
+    let pairings = [("t", "t"), ("t", "v"), ("v", "t"), ("v", "v")];
+    let mut pair = |g: &mut Gen, what: &str, shape2: &[(&str, usize)], data2: &[u64], srcs: Option<(String, String)>| {
+        for kind in ["eq", "similar"] {
+            let (src, rsrc) = match &srcs {
+                Some((a, b)) => (a.clone(), b.clone()),
+                None => {
+                    let p = g.rng.pick(&pairings);
+                    (p.0.to_string(), p.1.to_string())
+                }
+            };
+            g.op(format!("{} {} {} src={} rsrc={}", kind, show_shape(shape2), show_data(data2), src, rsrc));
+            g.count(&format!("{}.{}", kind, what));
+            let pk = format!("{}{}", if src == "t" { "t" } else { "v" }, if rsrc == "t" { "t" } else { "v" });
+            g.count(&format!("{}.pairing.{}", kind, pk));
+        }
+    };
+    // identical copy, in all four pairings
+    for p in pairings {
+        pair(g, "identical", shape, &data, Some((p.0.into(), p.1.into())));
+    }
+    // one element perturbed (first, last, random)
+    for pos in [0, n - 1, g.rng.below(n)] {
+        let mut d2 = data.clone();
+        d2[pos] += 1000;
+        pair(g, "perturbed", shape, &d2, None);
+    }
+    // renamed copy
+    if d >= 1 {
+        let mut ren = shape.to_vec();
+        ren[d - 1].0 = "zz";
+        pair(g, "renamed", &ren, &data, None);
+    }
+    // every reordering of the dimensions: similar but (unless identity / indistinguishable) not equal
+    let mut perms2 = permutations(d);
+    if !exhaustive && perms2.len() > 4 {
+        g.rng.shuffle(&mut perms2);
+        perms2.truncate(4);
+    }
+    for perm in &perms2 {
+        let (nl, nd) = reordered_data(&lens, &data, perm);
+        let nshape: Vec<(&str, usize)> = perm.iter().zip(nl.iter()).map(|(&p, &l)| (names[p], l)).collect();
+        pair(g, "reordered", &nshape, &nd, None);
+        // reordered and perturbed
+        let mut nd2 = nd.clone();
+        let pos = g.rng.below(n);
+        nd2[pos] += 1000;
+        pair(g, "reordered_perturbed", &nshape, &nd2, None);
+        // shape reordered but the data left in the old order
+        pair(g, "shape_reordered_data_not", &nshape, &data, None);
+        // the reordered copy seen through the ordering that undoes it: equal again
+        let back = format!("a:{}", show_names(&names));
+        pair(g, "reordered_viewed_back", &nshape, &nd, Some(("t".into(), back.clone())));
+        pair(g, "reordered_viewed_back", &nshape, &nd, Some(("v".into(), back)));
+        // left seen through the same ordering
+        let order: Vec<&str> = perm.iter().map(|&p| names[p]).collect();
+        let fwd = format!("a:{}", show_names(&order));
+        pair(g, "left_viewed_forward", &nshape, &nd, Some((fwd, "t".into())));
+        // transposed views on either side
+        let tv = format!("x:{}", show_names(&order));
+        pair(g, "transposed_view", shape, &data, Some((tv.clone(), tv.clone())));
+        pair(g, "transposed_view_vs_plain", shape, &data, Some((tv, "v".into())));
+    }
+    // same names, lengths permuted (dimension lengths differ)
+    if d >= 2 && lens[0] != lens[1] {
+        let mut sw = shape.to_vec();
+        let l0 = sw[0].1;
+        sw[0].1 = sw[1].1;
+        sw[1].1 = l0;
+        pair(g, "lengths_swapped", &sw, &data, None);
+    }
+    // one dimension longer
+    if d >= 1 {
+        let mut longer = shape.to_vec();
+        longer[0].1 += 1;
+        let n2: usize = longer.iter().map(|s| s.1).product();
+        let d2: Vec<u64> = (0..n2 as u64).map(|i| i + start).collect();
+        pair(g, "longer", &longer, &d2, None);
+    }
+}
+
+pub fn gen(g: &mut Gen) {
+    let (max_d, max_p) = if g.thorough { (4, 24) } else { (3, 12) };
+    for lens in shapes_up_to(max_d, max_p) {
+        let shape = named(g, &lens);
+        gen_case(g, &shape, true);
+    }
+    // all square 2-D shapes up to 5x5 (the separate in-place path)
+    for n in 1..=5usize {
+        let shape = named(g, &[n, n]);
+        gen_case(g, &shape, true);
+    }
+    // cubes and other shapes with repeated lengths (D = 3 must not take the square path)
+    for lens in [vec![2, 2, 2], vec![3, 3, 3], vec![2, 2, 3], vec![1, 1], vec![1, 1, 1]] {
+        let shape = named(g, &lens);
+        gen_case(g, &shape, true);
+    }
+    // random larger shapes, D up to 6
+    let n_random = if g.thorough { 150 } else { 25 };
+    for _ in 0..n_random {
+        let d = g.rng.range(3, 6);
+        let mut lens = vec![];
+        let mut prod = 1usize;
+        for _ in 0..d {
+            let l = g.rng.range(1, 4);
+            if prod * l > 400 {
+                lens.push(1);
+            } else {
+                lens.push(l);
+                prod *= l;
+            }
+        }
+        let shape = named(g, &lens);
+        gen_case(g, &shape, false);
+    }
+}
+
+// ---------------------------------------------------------------------------------------------
+// execution against the implementation
+// ---------------------------------------------------------------------------------------------
+
+fn parse_data(s: &str) -> Vec<u64> {
+    if let Some(rest) = s.strip_prefix('i') {
+        let (a, n) = rest.split_once('x').expect("i<start>x<n>");
+        let a: u64 = a.parse().unwrap();
+        let n: u64 = n.parse().unwrap();
+        (0..n).map(|i| i + a).collect()
+    } else {
+        split_comma(s).iter().map(|t| t.parse::<u64>().expect("u64")).collect()
+    }
+}
+
+#[derive(Clone, Debug)]
+enum Src {
+    Tensor,
+    View,
+    Access(Vec<&'static str>),
+    Transpose(Vec<&'static str>),
+    Rename(Vec<&'static str>),
+}
+
+fn parse_src(s: &str) -> Src {
+    if s == "t" {
+        Src::Tensor
+    } else if s == "v" {
+        Src::View
+    } else if let Some(r) = s.strip_prefix("a:") {
+        Src::Access(parse_names(r))
+    } else if let Some(r) = s.strip_prefix("x:") {
+        Src::Transpose(parse_names(r))
+    } else if let Some(r) = s.strip_prefix("r:") {
+        Src::Rename(parse_names(r))
+    } else {
+        panic!("bad src {}", s)
+    }
+}
+
+fn src_arg(key: &str, toks: &[&str]) -> Src {
+    opt_arg(key, toks).map(parse_src).unwrap_or(Src::Tensor)
+}
+
+/// Reads every element through the checked `get_reference`, at indexes produced by the
+/// harness's own odometer (independent of the library's iterators).
+fn dump<S: TensorRef<u64, D>, const D: usize>(s: &S) -> Result<(Vec<(&'static str, usize)>, Vec<u64>), String> {
+    let shape = s.view_shape();
+    let lens: Vec<usize> = shape.iter().map(|d| d.1).collect();
+    let mut data = vec![];
+    for idx in all_indexes(&lens) {
+        let a: [usize; D] = to_array(&idx);
+        match s.get_reference(a) {
+            Some(x) => data.push(*x),
+            None => return Err(format!("missing-element-at={}", show_usizes(&idx))),
+        }
+    }
+    Ok((shape.to_vec(), data))
+}
+
+fn show_val(shape: &[(&'static str, usize)], data: &[u64]) -> String {
+    format!("shape={} data={}", show_shape(shape), show_data(data))
+}
+
+fn show_dump<S: TensorRef<u64, D>, const D: usize>(s: &S) -> String {
+    match dump(s) {
+        Ok((shape, data)) => show_val(&shape, &data),
+        Err(e) => e,
+    }
+}
+
+/// A lazy view: its shape, its elements by the library's iterator — which must agree with the
+/// elements read one by one through `get_reference`.
+fn show_lazy<S: TensorRef<u64, D>, const D: usize>(v: &TensorView<u64, S, D>) -> String {
+    let by_iter: Vec<u64> = v.iter().collect();
+    let by_ref_iter: Vec<u64> = v.iter_reference().copied().collect();
+    match dump(v.source_ref()) {
+        Ok((shape, data)) => {
+            if data != by_iter || data != by_ref_iter || shape[..] != v.shape()[..] {
+                format!("iter-vs-get-mismatch iter={} get={}", show_data(&by_iter), show_data(&data))
+            } else {
+                show_val(&shape, &data)
+            }
+        }
+        Err(e) => e,
+    }
+}
+
+fn outcome(r: Result<String, PanicKind>) -> String {
+    match r {
+        Ok(s) => s,
+        Err(k) => panic_str(k),
+    }
+}
+
+/// The source as a type-erased owned `TensorRef` (used for right operands).
+fn boxed<const D: usize>(t: &Tensor<u64, D>, src: &Src) -> Box<dyn TensorRef<u64, D>> {
+    match src {
+        Src::Tensor | Src::View => Box::new(t.clone()),
+        Src::Access(n) => Box::new(TensorAccess::from(t.clone(), names_array::<D>(n))),
+        Src::Transpose(n) => Box::new(TensorTranspose::from(t.clone(), names_array::<D>(n))),
+        Src::Rename(n) => Box::new(TensorRename::from(t.clone(), names_array::<D>(n))),
+    }
+}
+
+/// Runs `$body` with `$v` bound to a statically typed `TensorView` of the requested source.
+macro_rules! with_view {
+    ($t:expr, $src:expr, $D:ident, $v:ident => $body:expr) => {
+        match $src {
+            Src::Tensor | Src::View => {
+                let $v = $t.view();
+                $body
+            }
+            Src::Access(n) => {
+                let $v = TensorView::from(TensorAccess::from($t, names_array::<$D>(n)));
+                $body
+            }
+            Src::Transpose(n) => {
+                let $v = TensorView::from(TensorTranspose::from($t, names_array::<$D>(n)));
+                $body
+            }
+            Src::Rename(n) => {
+                let $v = TensorView::from(TensorRename::from($t, names_array::<$D>(n)));
+                $body
+            }
+        }
+    };
+}
+
+/// The same with a mutable borrow of the tensor.
+macro_rules! with_view_mut {
+    ($t:expr, $src:expr, $D:ident, $v:ident => $body:expr) => {
+        match $src {
+            Src::Tensor | Src::View => {
+                let mut $v = $t.view_mut();
+                $body
+            }
+            Src::Access(n) => {
+                let mut $v = TensorView::from(TensorAccess::from(&mut *$t, names_array::<$D>(n)));
+                $body
+            }
+            Src::Transpose(n) => {
+                let mut $v = TensorView::from(TensorTranspose::from(&mut *$t, names_array::<$D>(n)));
+                $body
+            }
+            Src::Rename(n) => {
+                let mut $v = TensorView::from(TensorRename::from(&mut *$t, names_array::<$D>(n)));
+                $body
+            }
+        }
+    };
+}
+
+fn is_tensor(s: &Src) -> bool {
+    matches!(s, Src::Tensor)
+}
+
+fn reorder_like<const D: usize>(t: &Tensor<u64, D>, transpose: bool, names: &[&'static str], src: &Src, form: &str) -> String {
+    if names.len() != D {
+        return "bad-op".into();
+    }
+    let names: [&'static str; D] = names_array(names);
+    outcome(catch(|| match form {
+        "mut" => {
+            let mut copy = t.clone();
+            if transpose {
+                copy.transpose_mut(names);
+            } else {
+                copy.reorder_mut(names);
+            }
+            show_dump(&copy)
+        }
+        "lazy" => with_view!(t, src, D, v => {
+            if transpose {
+                show_lazy(&v.transpose_view(names))
+            } else {
+                show_lazy(&TensorView::from(TensorAccess::from(v.source_ref(), names)))
+            }
+        }),
+        _ => {
+            if is_tensor(src) {
+                show_dump(&if transpose { t.transpose(names) } else { t.reorder(names) })
+            } else {
+                with_view!(t, src, D, v => show_dump(&if transpose { v.transpose(names) } else { v.reorder(names) }))
+            }
+        }
+    }))
+}
+
+fn reshape<const D: usize>(t: &Tensor<u64, D>, shape2: &[(&'static str, usize)], form: &str) -> String {
+    if form == "mut" {
+        if shape2.len() != D {
+            return "bad-op".into();
+        }
+        let s2: [(&'static str, usize); D] = shape_array(shape2);
+        outcome(catch(|| {
+            let mut copy = t.clone();
+            copy.reshape_mut(s2);
+            show_dump(&copy)
+        }))
+    } else {
+        with_d!(shape2.len(), D2 => {
+            let s2: [(&'static str, usize); D2] = shape_array(shape2);
+            outcome(catch(|| show_dump(&t.clone().reshape_owned(s2))))
+        })
+    }
+}
+
+fn rename<const D: usize>(t: &Tensor<u64, D>, names: &[&'static str], src: &Src, form: &str) -> String {
+    if names.len() != D {
+        return "bad-op".into();
+    }
+    let names: [&'static str; D] = names_array(names);
+    outcome(catch(|| match form {
+        "mut" => {
+            let mut copy = t.clone();
+            copy.rename(names);
+            show_dump(&copy)
+        }
+        "owned" => show_dump(&t.clone().rename_owned(names)),
+        _ => {
+            if is_tensor(src) {
+                show_lazy(&t.rename_view(names))
+            } else {
+                with_view!(t, src, D, v => show_lazy(&v.rename_view(names)))
+            }
+        }
+    }))
+}
+
+fn map_like<const D: usize>(t: &Tensor<u64, D>, with_index: bool, src: &Src, form: &str, via: &str) -> String {
+    outcome(catch(|| {
+        if form == "mut" {
+            let mut copy = t.clone();
+            if is_tensor(src) {
+                if with_index {
+                    copy.map_mut_with_index(|i, x| mapi_f(&i, x));
+                } else {
+                    copy.map_mut(map_f);
+                }
+            } else if via == "access" {
+                if let Src::Access(n) = src {
+                    let mut a = TensorAccess::from(&mut copy, names_array::<D>(n));
+                    if with_index {
+                        a.map_mut_with_index(|i, x| mapi_f(&i, x));
+                    } else {
+                        a.map_mut(map_f);
+                    }
+                }
+            } else {
+                let c = &mut copy;
+                with_view_mut!(c, src, D, v => {
+                    if with_index {
+                        v.map_mut_with_index(|i, x| mapi_f(&i, x));
+                    } else {
+                        v.map_mut(map_f);
+                    }
+                });
+            }
+            // the mutated tensor seen through the same view, and the underlying data
+            let seen = with_view!(&copy, src, D, v => show_lazy(&v));
+            let under = match dump(&copy) {
+                Ok((_, d)) => show_data(&d),
+                Err(e) => e,
+            };
+            if with_index {
+                format!("{} ## under={}", seen, under)
+            } else {
+                format!("{} ## under={} direct={}", seen, under, under)
+            }
+        } else if is_tensor(src) {
+            if with_index {
+                show_dump(&t.map_with_index(|i, x| mapi_f(&i, x)))
+            } else {
+                show_dump(&t.map(map_f))
+            }
+        } else if via == "access" {
+            match src {
+                Src::Access(n) => {
+                    let a = TensorAccess::from(t, names_array::<D>(n));
+                    if with_index {
+                        show_dump(&a.map_with_index(|i, x| mapi_f(&i, x)))
+                    } else {
+                        show_dump(&a.map(map_f))
+                    }
+                }
+                _ => "bad-op".into(),
+            }
+        } else {
+            with_view!(t, src, D, v => {
+                if with_index {
+                    show_dump(&v.map_with_index(|i, x| mapi_f(&i, x)))
+                } else {
+                    show_dump(&v.map(map_f))
+                }
+            })
+        }
+    }))
+}
+
+fn zip<const D: usize>(t: &Tensor<u64, D>, t2: &Tensor<u64, D>, src: &Src, rsrc: &Src, with_index: bool, via: &str) -> String {
+    outcome(catch(|| {
+        let by_ref = via == "ref";
+        macro_rules! go {
+            ($lhs:expr, $rhs:expr) => {
+                match (with_index, by_ref) {
+                    (false, false) => show_dump(&$lhs.elementwise($rhs, zip_f)),
+                    (false, true) => show_dump(&$lhs.elementwise_reference($rhs, |x, y| zip_f(*x, *y))),
+                    (true, false) => show_dump(&$lhs.elementwise_with_index($rhs, |i, x, y| zipi_f(&i, x, y))),
+                    (true, true) => show_dump(&$lhs.elementwise_reference_with_index($rhs, |i, x, y| zipi_f(&i, *x, *y))),
+                }
+            };
+        }
+        if is_tensor(src) {
+            if is_tensor(rsrc) {
+                go!(t, t2)
+            } else {
+                go!(t, TensorView::from(boxed(t2, rsrc)))
+            }
+        } else {
+            with_view!(t, src, D, v => {
+                if is_tensor(rsrc) {
+                    go!(v, t2)
+                } else {
+                    go!(v, TensorView::from(boxed(t2, rsrc)))
+                }
+            })
+        }
+    }))
+}
+
+fn first<const D: usize>(t: &Tensor<u64, D>, src: &Src) -> String {
+    outcome(catch(|| {
+        if is_tensor(src) {
+            t.first().to_string()
+        } else {
+            with_view!(t, src, D, v => v.first().to_string())
+        }
+    }))
+}
+
+fn scalar(t: &Tensor<u64, 0>, src: &Src) -> String {
+    const Z: usize = 0;
+    outcome(catch(|| {
+        if is_tensor(src) {
+            let a = t.scalar();
+            let b = t.clone().into_scalar();
+            if a == b { a.to_string() } else { format!("scalar-vs-into_scalar {} {}", a, b) }
+        } else {
+            with_view!(t, src, Z, v => v.scalar().to_string())
+        }
+    }))
+}
+
+fn compare<const D: usize>(t: &Tensor<u64, D>, t2: &Tensor<u64, D>, similar: bool, src: &Src, rsrc: &Src) -> String {
+    outcome(catch(|| {
+        let ans: bool = if is_tensor(src) {
+            if is_tensor(rsrc) {
+                if similar { t.similar(t2) } else { t == t2 }
+            } else {
+                let r = TensorView::from(boxed(t2, rsrc));
+                if similar { t.similar(&r) } else { *t == r }
+            }
+        } else {
+            with_view!(t, src, D, v => {
+                if is_tensor(rsrc) {
+                    if similar { v.similar(t2) } else { v == *t2 }
+                } else {
+                    let r = TensorView::from(boxed(t2, rsrc));
+                    if similar { v.similar(&r) } else { v == r }
+                }
+            })
+        };
+        ans.to_string()
+    }))
+}
+
+fn matrix_ops(t: &Tensor<u64, 2>, toks: &[&str]) -> String {
+    match toks {
+        ["into_matrix", ..] => outcome(catch(|| {
+            let m = t.clone().into_matrix();
+            let m2: Matrix<u64> = t.clone().into();
+            if m != m2 {
+                return "into_matrix-vs-into".to_string();
+            }
+            let data: Vec<u64> = m.row_major_iter().collect();
+            format!("rows={} cols={} data={}", m.rows(), m.columns(), show_data(&data))
+        })),
+        ["roundtrip", ..] => outcome(catch(|| {
+            let shape = t.shape();
+            match t.clone().into_matrix().into_tensor(shape[0].0, shape[1].0) {
+                Ok(back) => show_dump(&back),
+                Err(_) => "err".to_string(),
+            }
+        })),
+        _ => "bad-op".into(),
+    }
+}
+
+fn from_matrix(toks: &[&str]) -> String {
+    match toks {
+        ["from_matrix", rows_s, cols_s, data_s, rname, cname] => {
+            let rows: usize = rows_s.parse().unwrap();
+            let cols: usize = cols_s.parse().unwrap();
+            let data = parse_data(data_s);
+            let (rname, cname) = (intern(rname), intern(cname));
+            outcome(catch(|| {
+                let m = Matrix::from_flat_row_major((rows, cols), data.clone());
+                let via_try: Result<Tensor<u64, 2>, _> =
+                    <Tensor<u64, 2> as TryFrom<(Matrix<u64>, [&'static str; 2])>>::try_from((m.clone(), [rname, cname]));
+                match (m.into_tensor(rname, cname), via_try) {
+                    (Ok(t), Ok(t2)) => {
+                        if t == t2 { show_dump(&t) } else { "into_tensor-vs-try_from".to_string() }
+                    }
+                    (Err(_), Err(_)) => "err".to_string(),
+                    _ => "into_tensor-vs-try_from".to_string(),
+                }
+            }))
+        }
+        _ => "bad-op".into(),
+    }
+}
+
+enum AnyT {
+    None,
+    D0(Tensor<u64, 0>), D1(Tensor<u64, 1>), D2(Tensor<u64, 2>), D3(Tensor<u64, 3>),
+    D4(Tensor<u64, 4>), D5(Tensor<u64, 5>), D6(Tensor<u64, 6>),
+}
+
+fn step_d<const D: usize>(t: &Tensor<u64, D>, toks: &[&str]) -> String {
+    match toks {
+        [op @ ("reorder" | "transpose"), names_s, rest @ ..] => {
+            let names = parse_names(names_s);
+            let src = src_arg("src", rest);
+            let form = opt_arg("form", rest).unwrap_or("alloc");
+            reorder_like(t, *op == "transpose", &names, &src, form)
+        }
+        ["reshape", shape_s, rest @ ..] => {
+            let shape2 = parse_shape(shape_s);
+            reshape(t, &shape2, opt_arg("form", rest).unwrap_or("owned"))
+        }
+        ["rename", names_s, rest @ ..] => {
+            let names = parse_names(names_s);
+            let src = src_arg("src", rest);
+            rename(t, &names, &src, opt_arg("form", rest).unwrap_or("mut"))
+        }
+        [op @ ("map" | "mapi"), rest @ ..] => {
+            let src = src_arg("src", rest);
+            map_like(t, *op == "mapi", &src, opt_arg("form", rest).unwrap_or("alloc"), opt_arg("via", rest).unwrap_or(""))
+        }
+        ["zip", shape_s, data_s, rest @ ..] => {
+            let shape2 = parse_shape(shape_s);
+            if shape2.len() != D {
+                return "bad-op".into();
+            }
+            let t2: Tensor<u64, D> = Tensor::from(shape_array(&shape2), parse_data(data_s));
+            zip(t, &t2, &src_arg("src", rest), &src_arg("rsrc", rest), opt_arg("idx", rest) == Some("1"), opt_arg("via", rest).unwrap_or("val"))
+        }
+        ["first", rest @ ..] => first(t, &src_arg("src", rest)),
+        [op @ ("eq" | "similar"), shape_s, data_s, rest @ ..] => {
+            let shape2 = parse_shape(shape_s);
+            if shape2.len() != D {
+                return "bad-op".into();
+            }
+            let t2: Tensor<u64, D> = Tensor::from(shape_array(&shape2), parse_data(data_s));
+            compare(t, &t2, *op == "similar", &src_arg("src", rest), &src_arg("rsrc", rest))
+        }
+        _ => "bad-op".into(),
+    }
+}
+
+pub struct Runner {
+    t: AnyT,
+}
 
 impl Runner {
     pub fn new() -> Runner {
-        Runner
+        Runner { t: AnyT::None }
     }
 
-    pub fn step(&mut self, _toks: &[&str]) -> String {
-        "unimplemented".into()
+    pub fn step(&mut self, toks: &[&str]) -> String {
+        match toks {
+            ["@", "t", shape_s, data_s] => {
+                let shape = parse_shape(shape_s);
+                let data = parse_data(data_s);
+                macro_rules! mk {
+                    ($D:literal, $V:ident) => {{
+                        let s: [(&'static str, usize); $D] = shape_array(&shape);
+                        match catch(|| Tensor::from(s, data)) {
+                            Ok(t) => { self.t = AnyT::$V(t); "ok".to_string() }
+                            Err(k) => { self.t = AnyT::None; panic_str(k) }
+                        }
+                    }};
+                }
+                match shape.len() {
+                    0 => mk!(0, D0), 1 => mk!(1, D1), 2 => mk!(2, D2), 3 => mk!(3, D3),
+                    4 => mk!(4, D4), 5 => mk!(5, D5), 6 => mk!(6, D6),
+                    _ => "bad-op".into(),
+                }
+            }
+            ["from_matrix", ..] => match &self.t {
+                AnyT::None => "no-tensor".into(),
+                _ => from_matrix(toks),
+            },
+            ["into_matrix", ..] | ["roundtrip", ..] => match &self.t {
+                AnyT::D2(t) => matrix_ops(t, toks),
+                AnyT::None => "no-tensor".into(),
+                _ => "bad-op".into(),
+            },
+            ["scalar", rest @ ..] => match &self.t {
+                AnyT::D0(t) => scalar(t, &src_arg("src", rest)),
+                AnyT::None => "no-tensor".into(),
+                _ => "bad-op".into(),
+            },
+            _ => match &self.t {
+                AnyT::None => "no-tensor".into(),
+                AnyT::D0(t) => step_d(t, toks),
+                AnyT::D1(t) => step_d(t, toks),
+                AnyT::D2(t) => step_d(t, toks),
+                AnyT::D3(t) => step_d(t, toks),
+                AnyT::D4(t) => step_d(t, toks),
+                AnyT::D5(t) => step_d(t, toks),
+                AnyT::D6(t) => step_d(t, toks),
+            },
+        }
     }
 }
